@@ -194,6 +194,23 @@ def disc_obligations(pid, d, mir_text, t_mir, info, add, violations, inconclusiv
                     violations.append({"property": pid, "obligation": o["obligation"], "static": True, "witness": {"checker": name}})
             elif o["result"] != "unsat":
                 inconclusive.append(o["obligation"] + ": " + o["result"])
+    # the simulation checker's trace function (C02/C03/C11 clauses that mention simulation)
+    if pid in ("C02", "C03", "C11"):
+        mres, minfo = discloop.sim_obligations(mir_text, lib_rs)
+        info["simulation"] = minfo
+        info["functions_encoded"].append(f"checker::simulation::check_trace_from_initial ({minfo['blocks']} basic blocks, {minfo['paths']} paths, every loop {minfo['loops_havocked']} havocked)")
+        seen_sim = set()
+        for o in mres:
+            if pid not in o["tag"].split(","):
+                continue
+            add(o["obligation"], o["result"])
+            kind = o["obligation"].split(": ", 2)[-1]
+            if o["result"] == "sat":
+                if kind not in seen_sim:
+                    seen_sim.add(kind)
+                    violations.append({"property": pid, "obligation": o["obligation"], "static": True, "witness": {"checker": "simulation"}})
+            elif o["result"] != "unsat":
+                inconclusive.append(o["obligation"] + ": " + o["result"])
     if pid == "C02":
         ares, ainfo = discloop.assert_obligations(mir_text, lib_rs)
         info["assert_properties"] = ainfo
